@@ -45,6 +45,26 @@ theorem resume_obs_eq (σ : Sig F) (sem : Sem F V X O) (hc : Classified σ) (hl 
     rw [load_other σ _ _ f (frozen_not_persisted hf)]
     exact (hfz.val f hf).symm
 
+/-- **protocol R in its minimal form** — options that are themselves persisted (the MPS softmax temperature
+is a buffer) need not, and in the check are not, re-applied on the fresh wrapper: re-applying only the mode
+and the option calls whose target lives outside the state_dict gives the same identical resume. (An
+implementation that consults a *second*, non-persisted copy of such an option is thereby exposed.) -/
+theorem resume_obs_eq_persisted_options_not_reapplied (σ : Sig F) (sem : Sem F V X O) (hc : Classified σ)
+    (hl : NoLate σ) (init fresh : MState F V) (hsame : SameCtor σ init fresh) (hcon : Constructed σ init)
+    (ops : List (Op F V)) (x : X) :
+    obs σ sem x (resumeRmin σ fresh ops (run σ init ops)) = obs σ sem x (run σ init ops) := by
+  apply obs_eq_of_agree σ sem hc x
+  have hfz := run_frozen_min σ ops (a := init) (b := fresh) ⟨hsame.frozen, hsame.training⟩
+  have hpi : ∀ f, (σ.kind f).persisted = true → (run σ init ops).present f = true := fun f hp => by
+    rw [run_present σ hl ops init f hp]; exact hcon f hp (hl f hp)
+  have hpf : ∀ f, (σ.kind f).persisted = true → (run σ fresh (cfgMin σ ops)).present f = true := fun f hp => by
+    rw [run_present σ hl _ fresh f hp, ← hsame.present f hp]; exact hcon f hp (hl f hp)
+  refine ⟨hfz.training.symm, fun f hp => ?_, fun f _ hf => ?_⟩
+  · exact load_persisted σ _ _ f hp (hpi f hp) (hpf f hp)
+  · unfold resumeRmin
+    rw [load_other σ _ _ f (frozen_not_persisted hf)]
+    exact (hfz.val f hf).symm
+
 /-- **C17, keys** — strict loading reports no missing and no unexpected key, whatever the two
 histories were: the key set of a wrapper is fixed by its constructor arguments. -/
 theorem keys_match (σ : Sig F) (hl : NoLate σ) (init fresh : MState F V) (hsame : SameCtor σ init fresh)
@@ -199,6 +219,19 @@ theorem literal_resume_differs :
 /-- … while protocol R on the very same history agrees (instance of `resume_obs_eq`). -/
 example : obs cfgSig idSem () (resumeR cfgSig st0 [.setOpt () 5] (run cfgSig st0 [.setOpt () 5]))
       = obs cfgSig idSem () (run cfgSig st0 [.setOpt () 5]) := by decide
+
+/-- one field that every forward recomputes and the observers read (think `SuperNetCombiner.theta_alpha`, a
+plain tensor attribute: the sampled branch coefficients that weight the SuperNet cost) -/
+def recSig : Sig Unit := ⟨fun _ => .recomputed, fun _ => true, fun _ => false⟩
+
+/-- **why the statement says "after the usual forward pass"**: a recomputed-on-forward field is not in the
+checkpoint; read *before* the forward it still holds the fresh wrapper's start-up value (SuperNet: cost and
+ICV of the uniform architecture right after `load_state_dict`), and the forward puts it right — -/
+theorem recomputed_field_stale_until_forward :
+    view recSig (resumeR recSig st0 [.train fun _ _ => 7] (run recSig st0 [.train fun _ _ => 7])) ()
+      ≠ view recSig (run recSig st0 [.train fun _ _ => 7]) () ∧
+    obs recSig idSem () (resumeR recSig st0 [.train fun _ _ => 7] (run recSig st0 [.train fun _ _ => 7]))
+      = obs recSig idSem () (run recSig st0 [.train fun _ _ => 7]) := by decide
 
 /-- **`Classified` is necessary**: a field outside the `state_dict` that training changes and an observer
 reads breaks the resume even under protocol R. -/
